@@ -93,32 +93,32 @@ func e2eSession(run *vk.Run, srv *vsrv.Server, a e2eArgs, s int) {
 	}
 	pc, err := vclient.Dial(srv, fmt.Sprintf("pub-%d-%d", a.Index, s))
 	if err != nil {
-		run.Inconclusive("dial: " + err.Error())
+		run.Undecided("dial: " + err.Error())
 		return
 	}
 	defer pc.Close()
 	pub := vrtc.NewPeer(pc)
 	defer pub.Shutdown()
 	if m, ok := pc.Join(g, "pres1", "pw"); !ok || m.Str("kind") != "join" {
-		run.Inconclusive("publisher join failed")
+		run.Undecided("publisher join failed")
 		return
 	}
 	sc, err := vclient.Dial(srv, fmt.Sprintf("sub-%d-%d", a.Index, s))
 	if err != nil {
-		run.Inconclusive("dial: " + err.Error())
+		run.Undecided("dial: " + err.Error())
 		return
 	}
 	defer sc.Close()
 	sub := vrtc.NewPeer(sc)
 	defer sub.Shutdown()
 	if m, ok := sc.Join(g, "pres1", "pw"); !ok || m.Str("kind") != "join" {
-		run.Inconclusive("subscriber join failed")
+		run.Undecided("subscriber join failed")
 		return
 	}
 	sc.Send(vclient.Msg{"type": "request", "request": map[string]any{"": []string{"video"}}})
 	up, err := pub.Publish(fmt.Sprintf("st-%d-%d", a.Index, s), "camera", []vrtc.TrackSpec{{Kind: "video", ID: "v0"}}, "")
 	if err != nil || up.Wait(20*time.Second) != "connected" {
-		run.Inconclusive("publisher did not connect")
+		run.Undecided("publisher did not connect")
 		return
 	}
 	tr := up.Track("v0")
